@@ -27,6 +27,12 @@ class C11(Prop):
                 {'prog': ['block', 'timeout', False, 8, ['block', 'ignore', False, 16, ['await', 30], 'cm'], 'cm'], 'ext': None},
                 {'prog': ['block', 'timeout', False, 16, ['block', 'timeout', False, 8, ['await', 30], 'coro'], 'cm'], 'ext': None},
                 {'prog': ['seq', ['block', 'ignore', True, -2, ['await', 6], 'cm'], ['await', 4]], 'ext': None}] + [
+            # two (three) nested blocks with exactly the same deadline: one timer serves them all, each reports its own expiry
+            {'prog': ['block', k1, True, 16, ['block', k2, True, 16, inner, f2], f1], 'ext': None}
+            for k1 in ('timeout', 'ignore') for k2 in ('timeout', 'ignore') for f1, f2 in (('cm', 'cm'), ('coro', 'cm'), ('cm', 'coro'))
+            for inner in (['await', 60], ['block', 'timeout', True, 16, ['await', 60], 'cm'], ['seq', ['await', 60], ['await', 4]])] + [
+            {'prog': ['block', k1, True, 16, ['seq', ['block', 'ignore', True, 16, ['await', 60], 'cm'], ['await', 30]], f1], 'ext': None}
+            for k1 in ('timeout', 'ignore') for f1 in ('cm', 'coro')] + [
             # the same absolute deadline T on the outermost and on an inner block with a later deadline between them: the inner
             # block owns T (TaskTimeout), the middle block must turn that unhandled timeout into UncaughtTimeoutError
             {'prog': ['block', k1, True, 16, ['block', 'timeout', False, 40, ['block', 'timeout', True, 16, ['await', 60], f3], f2], f1], 'ext': None}
@@ -63,11 +69,16 @@ class C11(Prop):
         if case.get('ext') is None and obs['out'] == 'ok' and obs['tail'] != 'tail-ok':
             return 'a cancellation was delivered after the blocks had exited (follow-on code was cancelled)'
         swallows = tc.catches_cancel(case['prog'])
-        for exc, expired, t0, dl, t1, kind, leaf in obs['log']:
+        for i_, (exc, expired, t0, dl, t1, kind, leaf) in enumerate(obs['log']):
             if (exc == 'CancelledError' and not expired and abs(t1 - max(dl, t0)) < 1e-9 and case.get('ext') is None
                     and not tc.raises_foreign(case['prog'], ('CancelledError',))):
                 return ('a block still running at its deadline was left by a bare CancelledError at that very instant instead of '
                         'reporting its timeout (TaskTimeout / quiet end with expired set)')
+            if exc == 'TimeoutCancellationError' and abs(t1 - max(dl, t0)) < 1e-9 and case.get('ext') is None \
+                    and not tc.raises_foreign(case['prog'], ('TimeoutCancellationError',)) \
+                    and not any(o[3] < dl - 1e-9 and o[2] <= t0 + 1e-9 for o in obs['log'][i_ + 1:]):      # (no enclosing block was due earlier)
+                return ('a block was left by TimeoutCancellationError at the very instant of its OWN deadline: the block whose deadline '
+                        'passed reports the timeout itself (TaskTimeout / quiet end); TimeoutCancellationError is for the blocks inside it')
             if (kind == 'ignore' and exc == 'normal' and not expired and leaf and dl > t0 and abs(t1 - dl) < 1e-9
                     and case.get('ext') is None):
                 return ('an ignore block whose body was still running at the deadline ended quietly but its expired attribute is '
